@@ -141,7 +141,10 @@ uint8_t get_reg(struct instr *instrc, struct operand *m, int r) {
         instrc->mod_disp | ((r & VALUE_MASK) << 3) | (m->reg & VALUE_MASK);
     return EXIT_SUCCESS;
   }
-  //
+  // base and index of one address have the same width
+  FAIL_IF_MSG(!instrc->no_base &&
+                  (m->reg & BIT_MASK) != (m->index & BIT_MASK),
+              "error base and index register differ in size\n");
   if ((m->index & REG_MASK) == spl) {
     FAIL_IF_MSG((m->reg & REG_MASK) == spl || instrc->sib_disp,
                 "error stack pointer register is not scalable\n");
